@@ -334,6 +334,13 @@ func (n *Net) wire() {
 	n.Nodes[Prime].Core.SetSubInterface(backend{n.Nodes[Region].Core, n, Region}, RegionLoc)
 }
 
+// AttachZoneReadOnly gives a separately started zone node (e.g. one reopened on a crashed
+// database copy) the net's region node as its dominant interface, without making the region
+// point at it: the node can resolve prime blocks and verify headers, the net is not disturbed.
+func (n *Net) AttachZoneReadOnly(nd *Node) {
+	nd.Core.SetDomInterface(backend{n.Nodes[Region].Core, n, Region})
+}
+
 // Close stops the nodes and removes temporary directories.
 func (n *Net) Close() {
 	for ctx := 2; ctx >= 0; ctx-- {
